@@ -68,7 +68,7 @@ def observe(res_outs, tmp_list):
 def run_faults(ctx):
     rng = ctx.rng
     cases, models, meta = [], [], []
-    sizes = [0, 1, 5, 4096, 4097, 9000] if ctx.quick else [0, 1, 2, 5, 100, 4095, 4096, 4097, 8192, 9000, 20000]
+    sizes = [0, 1, 5, 4097] if ctx.quick else [0, 1, 2, 5, 100, 4095, 4096, 4097, 8192, 9000, 20000]
     for present in (False, True):
         for n in sizes:
             body = bytes((7 * i + n) % 251 for i in range(n))
